@@ -17,6 +17,7 @@ import (
 	"bytes"
 	"fmt"
 	"io"
+	"os"
 	"runtime"
 	"strings"
 	"time"
@@ -192,6 +193,11 @@ func c08Families() []c08Family {
 		o := o
 		text("cte-nested-"+o, func(n int) string { return strings.Repeat(o, n) })
 	}
+	// nesting with a complete value of another kind between consecutive openers
+	for _, o := range []string{"[@u8x[ff] ", "[@u8[] ", "{1=@b[1] 2=", "[\"a\" ", "[/* c */ ", "[@application/x[ff] ", "[@1[ff] ", "[@f32[1.5] ", "(@u16x[ffff] ", "[&m:@i8[1] ", "@a{@u8x[] ", "[@uid[00000000-0000-0000-0000-000000000001] "} {
+		o := o
+		text("cte-nested-mixed-"+o, func(n int) string { return strings.Repeat(o, n) })
+	}
 	text("cte-nested-closed", func(n int) string { return strings.Repeat("[", n) + strings.Repeat("]", n) })
 	text("cte-many-ints", func(n int) string { return "[" + strings.Repeat("1 ", n) + "]" })
 	text("cte-many-strings", func(n int) string { return "[" + strings.Repeat("\"a\" ", n) + "]" })
@@ -306,6 +312,10 @@ func runC08(r *Run) {
 			if rng.P(1, 2) {
 				docLen = rng.Intn(3000)
 			}
+			big := rng.P(1, 12)
+			if big {
+				docLen = []int{1<<20 + 5, 3 << 20, 5<<20 + 17, 12 << 20}[rng.Intn(4)]
+			}
 			var count int
 			switch rng.Intn(5) {
 			case 0:
@@ -324,7 +334,24 @@ func runC08(r *Run) {
 			for i := 0; i < ns; i++ {
 				sched = append(sched, 1+rng.Intn([]int{1, 3, 64, 200, 5000}[rng.Intn(5)]))
 			}
-			data, bufCap, err := cbe.VerifReadBytes(&chunkReader{data: rng.Bytes(docLen), sched: sched}, count)
+			if big {
+				// megabytes: delivered in large pieces (the model iterates once per Read)
+				sched = nil
+				for i := 0; i < 400; i++ {
+					sched = append(sched, 1+rng.Intn([]int{4096, 65536, 1 << 20, 1 << 22}[rng.Intn(4)]))
+				}
+				if count < docLen && count < 1<<30 {
+					count = docLen
+				}
+			}
+			var m0, m1 runtime.MemStats
+			source := &chunkReader{data: make([]byte, docLen), sched: sched}
+			runtime.ReadMemStats(&m0)
+			data, bufCap, err := cbe.VerifReadBytes(source, count)
+			runtime.ReadMemStats(&m1)
+			if alloc := m1.TotalAlloc - m0.TotalAlloc; alloc > 4*uint64(docLen)+uint64(len(data))+1<<16 {
+				r.out.Finding("C08", "reader:alloc-exceeds-arrived", fmt.Sprintf("ReadBytes(%d) over a %d-byte document allocated %d bytes (more than 4 x arrived + the copy + 64 KiB)", count, docLen, alloc), fmt.Sprintf("count=%d docLen=%d", count, docLen))
+			}
 			ss := make([]string, len(sched))
 			for i, v := range sched {
 				ss[i] = fmt.Sprint(v)
@@ -355,6 +382,10 @@ func runC08(r *Run) {
 		}
 		n := scales[rng.Intn(len(scales))]
 		switch f.name {
+		case "cbe-long-string", "cbe-long-u8-array":
+			if rng.P(1, 3) {
+				n = 3 << 20 // an honest array of megabytes: the buffer must still grow geometrically
+			}
 		case "cte-nested-comments", "cte-unclosed-comments":
 			if n > 4000 {
 				n = 4000 // lexing nested comments is quadratic (known finding): keep it below the watchdog
@@ -391,7 +422,10 @@ func runC08(r *Run) {
 		if idx%97 == 0 {
 			r.out.Sample(desc)
 		}
-		replay := fmt.Sprintf("family %s n=%d huge=%d: %s", f.name, n, huge, trunc(hx(d1), 300))
+		if dbg := os.Getenv("C08_DEBUG_FAMILY"); dbg != "" && dbg == f.name {
+			fmt.Printf("case %d: %s\n", idx, desc)
+		}
+		replay := fmt.Sprintf("case %d family %s n=%d huge=%d: %s", idx, f.name, n, huge, trunc(hx(d1), 300))
 		if o1 == "HANG" || o4 == "HANG" {
 			r.out.Finding("C08", "cost:"+f.name, "decode does not finish within "+c08TimeLimit.String()+": "+desc, replay)
 			aborted = true
@@ -399,12 +433,30 @@ func runC08(r *Run) {
 		}
 		// time: only gross super-linear growth, confirmed by a second measurement of both sizes
 		if t1 >= 250*time.Millisecond && t4 > 10*t1 {
-			_, u1, _ := c08Measure(func() error { return mode.run(d1, cfg) })
-			_, u4, _ := c08Measure(func() error { return mode.run(d4, cfg) })
+			_, u1, p1 := c08Measure(func() error { return mode.run(d1, cfg) })
+			_, u4, p4 := c08Measure(func() error { return mode.run(d4, cfg) })
+			if p1 == "HANG" || p4 == "HANG" {
+				aborted = true // the decode is still running: nothing measured after this would be meaningful
+			}
 			if u1 >= 250*time.Millisecond && u4 > 10*u1 {
 				r.out.Finding("C08", "cost:"+f.name, fmt.Sprintf("decoding time grows much faster than linearly (4 times the document: %v -> %v, again %v -> %v): %s",
 					t1.Round(time.Millisecond), t4.Round(time.Millisecond), u1.Round(time.Millisecond), u4.Round(time.Millisecond), desc), replay)
 			}
+		}
+		if a1 > budget(d1) || a4 > budget(d4) || a4 > 6*a1+c08C {
+			// measure once more before reporting: an allocation the code really makes is made again
+			b1, _, q1 := c08Measure(func() error { return mode.run(d1, cfg) })
+			b4, _, q4 := c08Measure(func() error { return mode.run(d4, cfg) })
+			if q1 == "HANG" || q4 == "HANG" {
+				aborted = true
+			}
+			if b1 < a1 {
+				a1 = b1
+			}
+			if b4 < a4 {
+				a4 = b4
+			}
+			desc += fmt.Sprintf("; measured again: %d and %d bytes", b1, b4)
 		}
 		if a1 > budget(d1) || a4 > budget(d4) {
 			r.out.Finding("C08", "cost:"+f.name, fmt.Sprintf("allocation exceeds %d*len + 2*min(len, MaxArraySizeBytes) + %d: %s", c08K, c08C, desc), replay)
